@@ -1,8 +1,290 @@
-//! C03 observations (see props/c03.py for the consumer).
+//! C03 observations: wave vectors, phase mismatch and the optimum idler on random setups
+//! (all crystals x 5 phase-matching types x poling off / +-period x azimuths x signal polar angle in [-0.3, 0.3]).
+//! Every number is printed as the bit pattern the implementation produced; nothing is recomputed here except
+//! the *inputs* of the implementation (indices are obtained a second time through `CrystalSetup::index_along`
+//! called directly with each beam's own wavelength / direction / polarization, so that a wrong-beam slip inside
+//! `delta_k`/`wavevector` shows up in the consumer's recomputation).
 #![allow(unused_imports, dead_code)]
 use crate::common::*;
-use serde_json::json;
+use serde_json::{json, Value};
+use spdcalc::beam::*;
+use spdcalc::dim::ucum::{HZ, K, M, RAD, S, W, V};
+use spdcalc::utils::{frequency_to_vacuum_wavelength, from_celsius_to_kelvin};
+use spdcalc::*;
 
-pub fn run(_args: &[String]) {
-  emit(json!({"kind": "not_implemented", "property": "C03"}));
+pub const PMS: [PMType; 5] = [
+  PMType::Type0_o_oo,
+  PMType::Type0_e_ee,
+  PMType::Type1_e_oo,
+  PMType::Type2_e_eo,
+  PMType::Type2_e_oe,
+];
+
+pub fn v3(v: &na::Vector3<f64>) -> Value {
+  json!([fx(v.x), fx(v.y), fx(v.z)])
+}
+
+pub fn rad(a: Angle) -> f64 {
+  *(a / RAD)
+}
+pub fn met(a: Wavelength) -> f64 {
+  *(a / M)
+}
+pub fn freq(a: Frequency) -> f64 {
+  *(a / (RAD / S))
+}
+pub fn wvec(k: Wavevector) -> na::Vector3<f64> {
+  *(k / Wavenumber::new(1.))
+}
+
+pub fn beam_json(b: &Beam, cs: &CrystalSetup) -> Value {
+  let d = b.direction().into_inner();
+  let w = b.frequency();
+  let n_ri = *b.refractive_index(w, cs);
+  let n_ia = *cs.index_along(frequency_to_vacuum_wavelength(w), b.direction(), b.polarization());
+  let k = wvec(b.wavevector(w, cs));
+  json!({
+    "phi": fx(rad(b.phi())), "theta": fx(rad(b.theta_internal())), "omega": fx(freq(w)),
+    "lambda": fx(met(b.vacuum_wavelength())), "dir": v3(&d), "pol": format!("{:?}", b.polarization()),
+    "wx": fx(met(b.waist().x)), "wy": fx(met(b.waist().y)),
+    "n": fx(n_ri), "n_index_along": fx(n_ia), "k": v3(&k),
+  })
+}
+
+pub fn pp_json(pp: &PeriodicPoling) -> Value {
+  match pp {
+    PeriodicPoling::Off => json!({"on": false, "k_eff": fx(*(pp.k_eff() / (RAD / M))), "signed_period": fx(met(pp.signed_period()))}),
+    PeriodicPoling::On { period, sign, .. } => json!({
+      "on": true, "period": fx(met(*period)), "positive": *sign == Sign::POSITIVE,
+      "k_eff": fx(*(pp.k_eff() / (RAD / M))), "signed_period": fx(met(pp.signed_period())),
+    }),
+  }
+}
+
+pub struct Setup {
+  pub cs: CrystalSetup,
+  pub signal: SignalBeam,
+  pub pump: PumpBeam,
+  pub pp: PeriodicPoling,
+  pub input: Value,
+}
+
+/// window of a crystal (metres); expression crystals have none
+pub fn window(meta: &CrystalMeta) -> (f64, f64) {
+  match meta.transmission_range {
+    Some(r) => (r.0, r.1),
+    None => (400e-9, 2000e-9),
+  }
+}
+
+/// one random setup inside the property's box.  `class` selects the signal polar angle family.
+pub fn gen_setup(rng: &mut Rng, i: usize, theta_lo: f64, theta_hi: f64, allow_cp: bool) -> Setup {
+  let metas = CrystalType::get_all_meta();
+  let meta = &metas[i % metas.len()];
+  let crystal = CrystalType::from_string(meta.id).unwrap();
+  let pm = PMS[(i / metas.len()) % 5];
+  let (lo, hi) = window(meta);
+  // pump in the lower half of the window, signal above it; in 3 of 4 cases the idler wavelength is in-window too
+  let lp = rng.log_range(lo, hi / 2.0);
+  let ls = if rng.below(4) != 0 {
+    let lmin = (lp * hi / (hi - lp)).max(1.02 * lp).min(hi);
+    rng.range(lmin, hi)
+  } else {
+    rng.range(lp * 1.0001, hi)
+  };
+  let c_theta = match rng.below(10) {
+    0 => 0.0,
+    1 => std::f64::consts::FRAC_PI_2,
+    _ => rng.range(0.0, std::f64::consts::FRAC_PI_2),
+  };
+  let c_phi = if rng.below(5) == 0 { 0.0 } else { rng.range(0.0, 2.0 * std::f64::consts::PI) };
+  let t_c = if rng.coin() { 20.0 } else { rng.range(0.0, 100.0) };
+  let length = rng.range(1e-3, 30e-3);
+  let cp = allow_cp && rng.below(10) == 0;
+  let phi_s = match rng.below(6) {
+    0 => 0.0,
+    _ => rng.range(0.0, 2.0 * std::f64::consts::PI),
+  };
+  let theta_s = match rng.below(20) {
+    0 | 1 | 2 => 0.0,
+    3 => rng.log_range(1e-7, 1e-3) * if theta_lo < 0.0 && rng.coin() { -1.0 } else { 1.0 },
+    _ => rng.range(theta_lo, theta_hi),
+  };
+  let waist_s = rng.range(20e-6, 200e-6);
+  let waist_p = rng.range(20e-6, 400e-6);
+  let pp = match rng.below(5) {
+    0 | 1 => PeriodicPoling::Off,
+    _ => {
+      let period = rng.log_range(2e-6, 2e-3);
+      PeriodicPoling::On {
+        period: period * M,
+        sign: if rng.coin() { Sign::POSITIVE } else { Sign::NEGATIVE },
+        apodization: Apodization::Off,
+      }
+    }
+  };
+  let cs = CrystalSetup {
+    crystal,
+    pm_type: pm,
+    theta: c_theta * RAD,
+    phi: c_phi * RAD,
+    length: length * M,
+    temperature: from_celsius_to_kelvin(t_c),
+    counter_propagation: cp,
+  };
+  let signal: SignalBeam = Beam::new(pm.signal_polarization(), phi_s * RAD, theta_s * RAD, ls * M, waist_s * M).into();
+  let pump: PumpBeam = Beam::new(pm.pump_polarization(), 0. * RAD, 0. * RAD, lp * M, waist_p * M).into();
+  let input = json!({
+    "crystal": meta.id, "pm_type": pm.to_str(), "crystal_theta": fx(c_theta), "crystal_phi": fx(c_phi),
+    "temperature_c": fx(t_c), "length": fx(length), "counter_propagation": cp,
+    "pump_wavelength": fx(lp), "pump_waist": fx(waist_p),
+    "signal_wavelength": fx(ls), "signal_phi": fx(phi_s), "signal_theta": fx(theta_s), "signal_waist": fx(waist_s),
+    "window": [fx(lo), fx(hi)],
+  });
+  Setup { cs, signal, pump, pp, input }
+}
+
+fn idler_json(r: &Result<IdlerBeam, SPDCError>, cs: &CrystalSetup) -> Value {
+  match r {
+    Ok(idler) => json!({"ok": true, "beam": beam_json(idler, cs)}),
+    Err(e) => json!({"ok": false, "error": e.0.clone()}),
+  }
+}
+
+/// rebuild a setup from the bit patterns recorded in an observation's "input" / "pp" (used by --replay)
+pub fn setup_from_json(input: &Value, pp: &Value) -> Option<Setup> {
+  let g = |k: &str| -> Option<f64> { input.get(k).and_then(|v| v.as_str()).map(|_| f64_of(&input[k])) };
+  let crystal = CrystalType::from_string(input.get("crystal")?.as_str()?).ok()?;
+  let pm = *PMS.iter().find(|p| p.to_str() == input["pm_type"].as_str().unwrap_or(""))?;
+  let cs = CrystalSetup {
+    crystal,
+    pm_type: pm,
+    theta: g("crystal_theta")? * RAD,
+    phi: g("crystal_phi")? * RAD,
+    length: g("length")? * M,
+    temperature: from_celsius_to_kelvin(g("temperature_c")?),
+    counter_propagation: input.get("counter_propagation").and_then(|v| v.as_bool()).unwrap_or(false),
+  };
+  let signal: SignalBeam =
+    Beam::new(pm.signal_polarization(), g("signal_phi")? * RAD, g("signal_theta")? * RAD, g("signal_wavelength")? * M, g("signal_waist")? * M).into();
+  let pump: PumpBeam = Beam::new(pm.pump_polarization(), 0. * RAD, 0. * RAD, g("pump_wavelength")? * M, g("pump_waist")? * M).into();
+  let ppv = if pp.get("on").and_then(|v| v.as_bool()).unwrap_or(false) {
+    PeriodicPoling::On {
+      period: f64_of(&pp["period"]) * M,
+      sign: if pp["positive"].as_bool().unwrap_or(true) { Sign::POSITIVE } else { Sign::NEGATIVE },
+      apodization: Apodization::Off,
+    }
+  } else {
+    PeriodicPoling::Off
+  };
+  Some(Setup { cs, signal, pump, pp: ppv, input: input.clone() })
+}
+
+/// run the implementation on one setup and print the observation
+pub fn observe(i: usize, s: Setup, d1: f64, d2: f64) {
+    let Setup { cs, signal, pump, pp, input } = s;
+    let res = guarded(|| {
+      let idler_r = IdlerBeam::try_new_optimum(&signal, &pump, &cs, &pp);
+      let mut o = json!({
+        "kind": "case", "i": i, "input": input, "signal": beam_json(&signal, &cs), "pump": beam_json(&pump, &cs),
+        "pp": pp_json(&pp), "idler": idler_json(&idler_r, &cs), "d": [fx(d1), fx(d2)],
+      });
+      if let Ok(idler) = &idler_r {
+        let ws = signal.frequency();
+        let wi = idler.frequency();
+        let wp = pump.frequency();
+        let dk = wvec(delta_k(ws, wi, &signal, idler, &pump, &cs, &pp));
+        // an off-centre frequency pair, with the indices at those frequencies obtained directly
+        let ws2 = ws * (1.0 + d1);
+        let wi2 = wi * (1.0 + d2);
+        let dk2 = wvec(delta_k(ws2, wi2, &signal, idler, &pump, &cs, &pp));
+        let ns2 = *cs.index_along(frequency_to_vacuum_wavelength(ws2), signal.direction(), signal.polarization());
+        let ni2 = *cs.index_along(frequency_to_vacuum_wavelength(wi2), idler.direction(), idler.polarization());
+        // the same through the SPDC object
+        let spdc = SPDC::new(
+          cs.clone(), signal.clone(), idler.clone(), pump.clone(), 5e-9 * M, 1e-3 * W, 1e-2, pp.clone(),
+          0. * M, 0. * M, 1e-12 * M / V,
+        );
+        let dk_obj = wvec(spdc.delta_k(ws, wi));
+        let oi = spdc.optimum_idler();
+        let same_obj = match &oi {
+          Ok(b) => b == idler,
+          Err(_) => false,
+        };
+        let mut spdc2 = spdc.clone();
+        // assign_optimum_idler keeps the waist of the idler already present; give it a different one to see that
+        spdc2.idler.set_waist(BeamWaist::new(33e-6 * M));
+        let assigned = spdc2.assign_optimum_idler().is_ok();
+        let ai = &spdc2.idler;
+        o["dk"] = json!({
+          "center": v3(&dk), "omega_p": fx(freq(wp)),
+          "off": {"omega_s": fx(freq(ws2)), "omega_i": fx(freq(wi2)), "ns": fx(ns2), "ni": fx(ni2), "dk": v3(&dk2)},
+          "spdc_obj": v3(&dk_obj), "spdc_optimum_idler_same": same_obj,
+          "assign_ok": assigned, "assigned_theta": fx(rad(ai.theta_internal())), "assigned_phi": fx(rad(ai.phi())),
+          "assigned_lambda": fx(met(ai.vacuum_wavelength())), "assigned_pol": format!("{:?}", ai.polarization()),
+          "assigned_wx": fx(met(ai.waist().x)),
+        });
+      }
+      o
+    });
+    match res {
+      Ok(o) => emit(o),
+      Err(msg) => emit(json!({"kind": "panic", "i": i, "message": msg})),
+    }
+}
+
+pub fn run(args: &[String]) {
+  if args.first().map(|s| s.as_str()) == Some("replay") {
+    // args[1]: file with one JSON object {"input": .., "pp": .., "d": [..]} (an earlier observation)
+    let txt = std::fs::read_to_string(&args[1]).unwrap_or_default();
+    let v: Value = serde_json::from_str(&txt).unwrap_or(Value::Null);
+    match setup_from_json(&v["input"], &v["pp"]) {
+      Some(s) => {
+        let d1 = v["d"].get(0).map(f64_of).unwrap_or(0.01);
+        let d2 = v["d"].get(1).map(f64_of).unwrap_or(-0.01);
+        observe(0, s, d1, d2)
+      }
+      None => emit(json!({"kind": "bad_replay"})),
+    }
+    return;
+  }
+  let seed = arg_u64(args, 0, 1);
+  let n = arg_u64(args, 1, 110) as usize;
+  // args[2]: 0 = signal polar angle in [-0.3, 0.3] (default), 1 = only [0, 0.3]
+  let nonneg = arg_u64(args, 2, 0) == 1;
+  let mut rng = Rng::new(seed);
+  for i in 0..n {
+    let s = gen_setup(&mut rng, i, if nonneg { 0.0 } else { -0.3 }, 0.3, true);
+    let d1 = rng.range(-0.02, 0.02);
+    let d2 = rng.range(-0.02, 0.02);
+    observe(i, s, d1, d2);
+  }
+  // error rule: signal wavelength not longer than the pump wavelength
+  for j in 0..(n / 4).max(8) {
+    let s = gen_setup(&mut rng, j, -0.3, 0.3, false);
+    let Setup { cs, signal, pump, pp, input } = s;
+    let lp = met(pump.vacuum_wavelength());
+    let ls_in = match j % 4 {
+      0 => f64_of(&input["pump_wavelength"]),
+      1 => f64_of(&input["pump_wavelength"]) * (1.0 - 1e-12),
+      2 => f64_of(&input["pump_wavelength"]) * rng.range(0.3, 0.999),
+      _ => f64_of(&input["pump_wavelength"]) * (1.0 + 1e-9),
+    };
+    let mut sig2 = signal.clone();
+    sig2.set_vacuum_wavelength(ls_in * M);
+    let ls = met(sig2.vacuum_wavelength());
+    let r = guarded(|| IdlerBeam::try_new_optimum(&sig2, &pump, &cs, &pp));
+    let (class, detail) = match &r {
+      Ok(Ok(b)) => ("ok", json!({"lambda": fx(met(b.vacuum_wavelength()))})),
+      Ok(Err(e)) => ("err", json!({"error": e.0.clone()})),
+      Err(m) => ("panic", json!({"message": m})),
+    };
+    emit(json!({"kind": "errcase", "j": j, "input": input, "ls_requested": fx(ls_in), "ls": fx(ls), "lp": fx(lp),
+                "class": class, "detail": detail}));
+  }
+}
+
+pub fn f64_of(v: &Value) -> f64 {
+  let s = v.as_str().unwrap();
+  f64::from_bits(u64::from_str_radix(&s[2..], 16).unwrap())
 }
